@@ -269,6 +269,8 @@ fn rebind_line(f: &[&str]) -> String {
     let pkt = unhex(f[8]);
     let mbuff = unhex(f[9]);
     let helpers: Vec<(u32, u8)> = f.get(12).and_then(|x| x.strip_prefix("h:")).map(|spec| parse_pairs(spec).into_iter().map(|(id, p)| (id as u32, p as u8)).collect()).unwrap_or_default();
+    // optional: another program, loaded with set_program() before the second compilation
+    let prog2: Option<&'static [u8]> = f.get(13).and_then(|x| x.strip_prefix("p2:")).map(|h| &*Box::leak(unhex(h).into_boxed_slice()));
     let mut pb = Buf::new(&pkt, pmod);
     let mut mb = Buf::new(&mbuff, mmod);
     let paddr = pb.slice().as_ptr() as u64;
@@ -284,9 +286,22 @@ fn rebind_line(f: &[&str]) -> String {
     rbpf::verif_hooks::set_insn_budget(u64::MAX);
     let r: Option<(u32, u64)> = caught(std::panic::AssertUnwindSafe(|| {
         macro_rules! go {
-            ($vmv:expr, $jit:expr) => {{
+            (@reload plain, $v:expr, $p:expr) => {
+                $v.set_program($p)
+            };
+            (@reload fixed, $v:expr, $p:expr) => {
+                $v.set_program($p, d, e)
+            };
+            ($kind:ident, $vmv:expr, $jit:expr) => {{
                 let mut vals = [0u64; 2];
                 for round in 0..2u8 {
+                    if round == 1 {
+                        if let Some(p2) = prog2 {
+                            if go!(@reload $kind, $vmv, p2).is_err() {
+                                return (7, 0);
+                            }
+                        }
+                    }
                     for (id, p) in &helpers {
                         if $vmv.register_helper(*id, POOL[((*p + round) % 8) as usize]).is_err() {
                             return (3, 0);
@@ -311,19 +326,19 @@ fn rebind_line(f: &[&str]) -> String {
         match vm {
             "nodata" => {
                 let Ok(mut v) = rbpf::EbpfVmNoData::new(Some(prog)) else { return (2, 0) };
-                go!(v, v.execute_program_jit())
+                go!(plain, v, v.execute_program_jit())
             }
             "raw" => {
                 let Ok(mut v) = rbpf::EbpfVmRaw::new(Some(prog)) else { return (2, 0) };
-                go!(v, v.execute_program_jit(pb.slice()))
+                go!(plain, v, v.execute_program_jit(pb.slice()))
             }
             "mbuff" => {
                 let Ok(mut v) = rbpf::EbpfVmMbuff::new(Some(prog)) else { return (2, 0) };
-                go!(v, v.execute_program_jit(pb.slice(), mb.slice()))
+                go!(plain, v, v.execute_program_jit(pb.slice(), mb.slice()))
             }
             _ => {
                 let Ok(mut v) = rbpf::EbpfVmFixedMbuff::new(Some(prog), d, e) else { return (2, 0) };
-                go!(v, v.execute_program_jit(pb.slice()))
+                go!(fixed, v, v.execute_program_jit(pb.slice()))
             }
         }
     }));
